@@ -3,7 +3,7 @@
    the set of code points the working tree's _handle_unrepresentable replaces. *)
 From Odf Require Import model.Base model.Chars model.XmlPrint model.XmlLex model.XmlTree model.Inst
   gen.GenChars proofs.XmlPrintProofs proofs.XmlLexProofs proofs.XmlTokProofs proofs.XmlResolveProofs
-  proofs.XmlRoundTrip proofs.XmlInst.
+  proofs.XmlRoundTrip proofs.XmlInst model.Doc gen.GenNs gen.GenStyleRefs proofs.DocProofs proofs.DocInst.
 
 (* character data: the written form of a text node lexes back to the node's
    (filtered) string, whatever precedes it *)
@@ -51,3 +51,26 @@ Print Assumptions C02_canon_strict.
 Theorem C02_strict_refuted : exists c, xml10_char c = true /\ in_ranges F c = true.
 Proof. exact filter_wider_than_needed. Qed.
 Print Assumptions C02_strict_refuted.
+
+(* each rendering of a document: the four package parts and the flat document parse back to the (canonical form of
+   the) tree they serialise - the wrapper element around the document's own sections *)
+Theorem C02_content : forall env d, doc_ok F env (content_tree RA d) = true ->
+  xml_parse (i_contentxml env d) = Some (canon F (content_tree RA d)).
+Proof. exact content_roundtrip. Qed.
+Print Assumptions C02_content.
+Theorem C02_styles : forall env d, doc_ok F env (styles_tree RA d) = true ->
+  xml_parse (i_stylesxml env d) = Some (canon F (styles_tree RA d)).
+Proof. exact styles_roundtrip. Qed.
+Print Assumptions C02_styles.
+Theorem C02_meta : forall env d, doc_ok F env (meta_tree toolsversion d) = true ->
+  xml_parse (snd (i_metaxml env d)) = Some (canon F (meta_tree toolsversion d)).
+Proof. exact meta_roundtrip. Qed.
+Print Assumptions C02_meta.
+Theorem C02_settings : forall env d, doc_ok F env (settings_tree d) = true ->
+  xml_parse (i_settingsxml env d) = Some (canon F (settings_tree d)).
+Proof. exact settings_roundtrip. Qed.
+Print Assumptions C02_settings.
+Theorem C02_flat : forall env d, doc_ok F env (topnode (norm_gen toolsversion d)) = true ->
+  xml_parse (snd (i_flatxml env d)) = Some (canon F (topnode (norm_gen toolsversion d))).
+Proof. exact flat_roundtrip. Qed.
+Print Assumptions C02_flat.
